@@ -27,12 +27,16 @@ RULE = ("one input under the three stringencies for each of five entry points: h
         "matching the scheme, duplicated names, no line number), record.validate (reset on/off, scheme none/same/"
         "other, stored columns modified in place: column_index or key reassigned), whole files (the valid/defect/boundary/adversarial stream of C16, with and without sort orders and "
         "contigs), writer sessions (header with/without scheme, 0-4 records some invalid; through from_fd on StringIO "
-        "and from_path on plain and .gz scratch files under /verif/work); non-trivial: at least one "
+        "and from_path on plain and .gz scratch files under /verif/work; sorting writers - assume_sorted=False under a "
+        "declared coordinate-type order - observed through close()); texts with %, %s, %d in pragma values, keys, column "
+        "names and cells so that echoed diagnostics contain format characters; non-trivial: at least one "
         "validation error is collected in Silent mode; distinct by case hash")
 ASSUMPTIONS = [
     "typed column classes are represented in the extracted run by an oracle table from the real classes (see C16)",
     "the scheme registry is read from all_schemes() of the imported library",
-    "writer: assume_sorted=True (the sorting path belongs to C10); records handed to the writer come from MafRecord.from_line",
+    "writer model: assume_sorted=True; for sorting writers (assume_sorted=False) the model is compared on opening and on "
+    "every add only, the behaviour of close() (re-reading through the sorter) is judged by the oracle alone; order and "
+    "re-rendering of sorted output belong to C10; records handed to the writer come from MafRecord.from_line",
     "log records are compared as (logger, level, error type, line number) or the reader's no-matching-scheme warning",
 ]
 
@@ -126,6 +130,30 @@ def _gen_writer(rng, stream):
             "channel": rng.choice(["fd", "fd", "path", "gz", "gz"])}
 
 
+def _gen_sorting_writer(rng, stream):
+    """a writer that sorts (assume_sorted=False under a declared coordinate-type order): the records go through
+    the sorter and are re-read when the writer is closed"""
+    order = rng.choice(["Coordinate", "BarcodesAndCoordinate"])
+    typed = rng.random() < 0.5
+    hl = (["#version gdc-1.0.0"] if typed else rng.choice([[], ["#center x"]])) + ["#sort.order " + order]
+    # (no contig list: a chromosome missing from it makes the sorter's key raise the ordering ValueError at add
+    # time, which is the sorter's business - C10 - and not modelled here)
+    names = ["Chromosome", "Start_Position", "End_Position", "x"]
+    specs = []
+    for _ in range(rng.randint(1, 4)):
+        chrom, pos = rng.choice(["chr1", "chr2", "chrX"]), rng.randint(1, 300)
+        if typed:
+            line = R.valid_line(rng, R.builtin_scheme("gdc-1.0.0"), chrom=chrom, start=pos)
+            spec = {"line": line, "names": None, "scheme": GDC, "ln": rng.choice([None, 3])}
+        else:
+            line = "\t".join([chrom, str(pos), str(pos), rng.choice(["v", "w"])])
+            spec = {"line": line, "names": names, "scheme": None, "ln": rng.choice([None, 5])}
+        if stream != "valid" and rng.random() < 0.5:
+            spec["line"] = _spoil(rng, spec["line"]).replace("\n", " ").replace("\r", " ")
+        specs.append(spec)
+    return {"kind": "writer", "stream": stream, "hlines": hl, "specs": specs, "channel": "sorted"}
+
+
 def _gen_header(rng, stream):
     import C13
     return {"kind": "header", "stream": stream, "lines": C13._lines(rng, stream)}
@@ -147,6 +175,13 @@ def corpus():
                   "scheme": ["norestr", ["Hugo_Symbol", "Chromosome", "Start_Position"]], "ln": None},
          "reset": True, "vscheme": ["builtin", "gdc-1.0.0"],
          "tamper": [["key", "Start_Position", "Hugo_Symbol"], ["idx", "Start_Position", 0]]},
+        # a sorting writer (assume_sorted=False): records with errors are re-read when it is closed
+        {"kind": "writer", "stream": "corpus", "hlines": ["#sort.order Coordinate"], "channel": "sorted",
+         "specs": [{"line": "chr1\t5\t5", "names": ["Chromosome", "Start_Position", "End_Position"], "scheme": None, "ln": None},
+                   {"line": "chr1\t3", "names": ["Chromosome", "Start_Position", "End_Position"], "scheme": None, "ln": 7}]},
+        # an echoed text with a percent sign must still be warned about in Lenient mode
+        {"kind": "header", "stream": "corpus", "lines": ["#version gdc-1.0.0%", "#sort.order 100% sorted"]},
+        {"kind": "reader", "stream": "corpus", "lines": ["#version gdc-1.0.0", "GC%\t%s"], "override": None},
         # from_path channels: a header without a version / a record with a wrong field count, plain and gzip
         {"kind": "writer", "stream": "corpus", "hlines": ["#center x"], "channel": "gz",
          "specs": [{"line": "1\t2", "names": ["a", "b"], "scheme": None, "ln": None}]},
@@ -171,7 +206,7 @@ def generate(rng, n):
                 out.append({"kind": "line", "stream": "typed-special",
                             "spec": {"line": c["lines"][-1], "names": None, "scheme": GDC, "ln": 4}})
     while len(out) < n:
-        kind = rng.choice(["header", "line", "line", "validate", "reader", "reader", "reader", "writer"])
+        kind = rng.choice(["header", "line", "line", "validate", "reader", "reader", "reader", "writer", "sorting-writer"])
         stream = rng.choice(["valid", "defect", "defect", "adversarial"])
         if kind == "header":
             out.append(_gen_header(rng, stream))
@@ -193,6 +228,8 @@ def generate(rng, n):
         elif kind == "reader":
             c = R.gen_reader_case(rng, stream)
             out.append({"kind": "reader", "stream": stream, "lines": c["lines"], "override": c["override"]})
+        elif kind == "sorting-writer":
+            out.append(_gen_sorting_writer(rng, stream))
         else:
             out.append(_gen_writer(rng, stream))
     return out
@@ -256,7 +293,17 @@ def run_impl(case):
 
 
 def from_model(case, sx):
-    return {m: _dec(case, s) for m, s in zip(MODES, sx)}
+    out = {m: _dec(case, s) for m, s in zip(MODES, sx)}
+    if case["kind"] == "writer" and case.get("channel") == "sorted":
+        for m in out:           # the order and re-rendering of sorted output belong to C10; C03 compares the rest
+            out[m].pop("out", None)
+    return out
+
+
+def comparable(obs):
+    def strip(o):
+        return {k: v for k, v in o.items() if not k.startswith("_")} if isinstance(o, dict) else o
+    return {m: strip(o) for m, o in obs.items()}
 
 
 # ------------------------------------------------------------------ oracle
@@ -268,6 +315,8 @@ def _covers(log, errs, out, what):
     """every collected error appears as a WARNING on the log"""
     pool = [r[2] for r in log if r[0] == "ign"]
     for r in log:
+        if r[0] == "unformattable":
+            out.append("%s-lenient-warning-could-not-be-formatted" % what)
         if r[-1] != "WARNING":
             out.append("%s-lenient-log-level %r" % (what, r[-1]))
     for e in errs:
@@ -355,6 +404,8 @@ def _writer(S, L, T, out):
     if T["init"] != S["init"]:
         out.append("writer-strict-open-differs-without-errors")
         return
+    if "_out" in S:
+        return _sorting_writer(S, L, T, out)
     nrec = len(S["adds"])
     prefix = S["out"][:len(S["out"]) - nrec]
     expect_out = list(prefix)
@@ -374,6 +425,36 @@ def _writer(S, L, T, out):
             expect_out.append(S["out"][len(prefix) + i])
     if T["out"] != expect_out:
         out.append("writer-strict-output-differs")
+
+
+def _sorting_writer(S, L, T, out):
+    """the sorter path: every add behaves as without sorting; closing the writer (which re-reads the records)
+    never raises the format exception in Silent/Lenient, Lenient writes what Silent writes, Strict writes the
+    output of the records it accepted"""
+    for name, o in (("silent", S), ("lenient", L)):
+        if o.get("_close") is not None and o["_close"][0] == "MafFormatException":
+            out.append("sorting-writer-%s-close-raised-format-exception %r" % (name, o["_close"]))
+        elif o.get("_close") is not None:
+            out.append("sorting-writer-%s-close-raised %r" % (name, o["_close"][0]))
+    if S.get("_close_log"):
+        out.append("sorting-writer-silent-logged-on-close")
+    if S.get("_out") != L.get("_out"):
+        out.append("sorting-writer-lenient-output-differs-from-silent")
+    for i, (a, la, ta) in enumerate(zip(S["adds"], L["adds"], T.get("adds", []))):
+        if a["res"][0] != "ok":
+            return out
+        es = a["res"][1]
+        _covers(la["log"], es, out, "writer-add")
+        if es:
+            if ta["res"] != ["exc", _fmt(es[0])]:
+                out.append("writer-strict-add-%d %r expected-first-error %r" % (i + 1, ta["res"], es[0]))
+        elif ta["res"] != a["res"]:
+            out.append("writer-strict-add-differs-without-errors")
+    if T.get("_close") is not None:
+        out.append("sorting-writer-strict-close-raised %r" % (T["_close"][0],))
+    if all(a["res"] == ["ok", []] for a in S["adds"]) and T.get("_out") != S.get("_out"):
+        out.append("sorting-writer-strict-output-differs-without-errors")
+    return out
 
 
 def oracle(case, obs):
